@@ -10,6 +10,7 @@ from .array import (ndarray, as_dtype, asarray_seq, cast_cell, infer_dtype, scal
         is_symbolic, _broadcast_flat, _broadcast_shapes, _prod, _binop, _not, _str_width,
         str_dtype, cell_strlen, DT_BOOL, DT_INT, DT_FLOAT, DT_OBJECT, _size_str_dtype)
 from .cells import num_eq, num_lt
+from .array import _mark
 from . import nondet
 
 _builtin_all, _builtin_any, _builtin_sum, _builtin_min, _builtin_max = all, any, sum, min, max
@@ -205,6 +206,7 @@ def concatenate(arrays, axis=0, out=None, dtype=None, **kw):
             raise ValueError('Output array is the wrong shape')
         if not out.flags._writeable:
             raise ValueError('output array is read-only')
+        _mark(out._buf)
         for p, c in zip(out._positions(), cells):
             out._buf[p] = c
         return out
@@ -359,6 +361,7 @@ def _reduce(a, axis, out, fn, dt):
             raise ValueError('output parameter for reduction operation has the wrong shape')
         if not out.flags._writeable:
             raise ValueError('output array is read-only')
+        _mark(out._buf)
         for p, v in zip(out._positions(), vals):
             out._buf[p] = cast_cell(v, out._dtype)
         return out
@@ -495,6 +498,7 @@ def _ufunc2(op):
                 raise ValueError('output array is read-only')
             if out._shape != res._shape:
                 raise ValueError('non-broadcastable output operand')
+            _mark(out._buf)
             for p, c in zip(out._positions(), res._cells()):
                 out._buf[p] = cast_cell(c, out._dtype)
             return out
